@@ -2,6 +2,8 @@
 the cost-scaled multitask acquisition function and the Parzen-estimator ratio (GenAcq.v)."""
 import numpy
 
+from .ir import TranslationError
+
 from .core import Unit
 
 PRED = "libsigopt/compute/predictor.py"
@@ -233,6 +235,20 @@ def drv_llgrad(rng):
   return env, dict(n=n, nh=ll.num_hyperparameters), [ll.compute_grad_log_likelihood()]
 
 
+def drv_llgrad_mode(log_domain):
+  def d(rng):
+    from libsigopt.compute.log_likelihood import GaussianProcessLogMarginalLikelihood
+    g = _GP(rng, mean=True)
+    gp = g.gp
+    sf = rng.choice([1.0, 0.25])
+    ll = GaussianProcessLogMarginalLikelihood(gp.covariance, gp.historical_data, gp.mean_poly_indices, log_domain=log_domain, scaling_factor=sf)
+    dK = ll.covariance.build_kernel_hparam_grad_tensor(ll.gp.points_sampled)
+    K = ll.covariance.build_kernel_matrix(ll.gp.points_sampled, noise_variance=ll.gp.points_sampled_noise_variance)
+    env = dict(dK=dK, a=ll.gp.K_inv_demeaned_y, Kinv=numpy.linalg.inv(K), s=sf, hyp=numpy.array(ll.hyperparameters, dtype=float))
+    return env, dict(n=ll.gp.num_sampled, nh=ll.num_hyperparameters), [ll.compute_grad_log_likelihood()]
+  return d
+
+
 def _llgrad_ir():
   from . import ir
   from .symeval import T
@@ -303,6 +319,40 @@ def units():
   us.append(Unit("GenAcq", "Product", "grad", PF, "_compute_grad_probability_of_success", "ProductOfListOfProbabilisticFailures",
                  inputs={"p": ("poss", ["q", "i"]), "g": ("gposs", ["q", "i", "k"])}, sizes={"q": "nq", "k": "dim"}, hand=_prod_grad_ir(),
                  driver=drv_prod_grad, note="HAND-WRITTEN IR of the masked-product loop (sum_q grad_q * prod_{q' != q} pos_q'); tied by self-check"))
+  # the same two loops TRANSLATED from the source (range loops, boolean masks, per-element stores); Proofs/HandIR.v proves the
+  # hand-written IR above equal to them, so the hand IR is tied to the code by the translator plus a Coq proof, not only numerically
+  us.append(Unit("GenAcq", "Product", "grad_loop", PF, "_compute_grad_probability_of_success", "ProductOfListOfProbabilisticFailures",
+                 inputs={"failure_components": ("obj", {"poss": ("poss", ["q", "i"]), "grad_poss": ("gposs", ["q", "i", "k"])},
+                                                "FailureListProductComponents")},
+                 selfattrs={"num_pfs": ("size", "nq")}, sizes={"q": "nq", "k": "dim"}, out_idx=["i", "k"], driver=drv_prod_grad,
+                 note="translated masked-product loop"))
+  def cho_solve_stub(ev, n):
+    # scipy.linalg.cho_solve(K_chol, B, overwrite_b=...) with K_chol the factor of K: K^-1 B, K^-1 a declared input (C02: exact-arithmetic
+    # meaning of a successful factor-and-solve)
+    import ast as _ast
+    from . import ir as _ir
+    from .symeval import T as _T, as_T as _as_T
+    ev.kw(n, {"overwrite_b"})
+    if len(n.args) != 2 or _ast.unparse(n.args[0]) != "K_chol":
+      raise TranslationError(f"{ev.where(n)}: cho_solve on something other than K_chol")
+    b = _as_T(ev.expr(n.args[1]), ev.where(n))
+    if len(b.idx) != 2 or ev.sizes.get(b.idx[0]) != "n":
+      raise TranslationError(f"{ev.where(n)}: cho_solve right-hand side {b.idx}")
+    r, c = b.idx
+    m = r + "s"
+    ev.sizes.setdefault(m, "n")
+    return _T(("sum", m, "n", ("bin", "*", ("var", "Kinv", (_ir.ix(r), _ir.ix(m))), _ir.subst_ix(b.node, r, _ir.ix(m)))), (r, c))
+  for nm, logdom in (("grad_linear", False), ("grad_logdom", True)):
+    gpo = ("obj", {"K_inv_demeaned_y": ("a", ["j"]), "K_chol": "K_chol", "has_zero_mean": False, "points_sampled": None,
+                   "num_sampled": ("size", "n"), "P": None, "K_inv_P": None, "PKP_chol": None}, None)
+    cvo = ("obj", {"build_kernel_hparam_grad_tensor": ("stub", ("dK", ["j", "l", "h"]))}, None)
+    us.append(Unit("GenAcq", "LogLikGrad", nm, LLY, "compute_grad_log_likelihood", "GaussianProcessLogMarginalLikelihood",
+                   selfattrs={"gp": gpo, "covariance": cvo, "use_auto_noise": False, "log_domain": logdom, "scaling_factor": ("s", []),
+                              "num_hyperparameters": ("size", "nh"), "problem_size": ("size", "nh"), "hyperparameters": ("hyp", ["h"])},
+                   stubs={"scipy.linalg.cho_solve": cho_solve_stub, "Kinv": ("Kinv", ["j", "l"])},
+                   sizes={"j": "n", "l": "n", "h": "nh"}, empty={"self.num_hyperparameters": ["h"]}, out_idx=["h"], driver=drv_llgrad_mode(logdom),
+                   note=("translated per-hyperparameter loop, non-zero mean, module default of include_nonzero_correction, "
+                         + ("log parameterisation" if logdom else "linear parameterisation"))))
   un = ("obj", {"_evaluate_at_point_list": ("stub", ("af", ["i"])),
                 "joint_function_gradient_eval": ("stub", [("af", ["i"]), ("g", ["i", "kk"])])}, None)
   us.append(Unit("GenAcq", "MultitaskAF", "value", MAF, "_evaluate_at_point_list", "MultitaskAcquisitionFunction",
